@@ -6,6 +6,7 @@ Model of `semantic/type_check/{mod,simple_type,ref_type,sub_type,complex_type/*}
 fragment of `Model/Ty.lean`; classes have no members (so `find_members` yields the empty list), no
 enums, no generics, `TypeCheckCheckLevel::Normal`, `detail = false`.
 
+`ip` is `TypeCheckContext.alias_in_progress` (the `(alias, compact)` pairs being unfolded up the stack);
 `lvl` is `TypeCheckGuard.stack_level`; `next lvl` is `next_level()` (`Err(TypeRecursion)` past 100).
 `fuel` bounds the *depth* of the model's own recursion (every call between the mutually recursive
 functions spends one unit); `Res.outOfFuel` is distinct from every result of the real checker and
@@ -303,37 +304,37 @@ def tupleGet (ts : List Ty) (i : Nat) : Option Ty := ts[i]?
 
 mutual
 /-- `check_general_type_compact` -/
-def checkGeneral (e : Env) : Nat → Nat → Ty → Ty → Res
+def checkGeneral (e : Env) (ip : List (Name × Ty)) : Nat → Nat → Ty → Ty → Res
   | 0, _, _, _ => .outOfFuel
   | f + 1, lvl, s, c =>
     if isLikeAny c then .ok
     else if fastEq s c then .ok
     else
       match escapeType e c with
-      | some o => withNext lvl fun l => checkGeneral e f l s o
+      | some o => withNext lvl fun l => checkGeneral e ip f l s o
       | none =>
         match s with
         | .prim .unknown | .prim .any => .ok
         | .prim .never => if c = tNever then .ok else .notMatch
         | .prim .selfInfer => .notMatch
-        | .prim _ | .lit _ => checkSimple e f lvl s c
-        | .ref n => checkRef e f lvl n c
+        | .prim _ | .lit _ => checkSimple e ip f lvl s c
+        | .ref n => checkRef e ip f lvl n c
         | .func _ => .unsupported
-        | .array _ | .tuple _ | .object _ | .union _ | .tgen _ => checkComplex e f lvl s c
+        | .array _ | .tuple _ | .object _ | .union _ | .tgen _ => checkComplex e ip f lvl s c
 
 /-- `check_simple_type_compact` -/
-def checkSimple (e : Env) : Nat → Nat → Ty → Ty → Res
+def checkSimple (e : Env) (ip : List (Name × Ty)) : Nat → Nat → Ty → Ty → Res
   | 0, _, _, _ => .outOfFuel
   | f + 1, lvl, s, c =>
     match simpleDecide e s c (fun _ => baseTypeForRef e f lvl s c) with
     | some r => r
     | none =>
       match c with
-      | .union ms => allOk (fun m => withNext lvl fun l => checkSimple e f l s m) ms.toList
+      | .union ms => allOk (fun m => withNext lvl fun l => checkSimple e ip f l s m) ms.toList
       | _ => .notMatch
 
 /-- `check_ref_type_compact` -/
-def checkRef (e : Env) : Nat → Nat → Name → Ty → Res
+def checkRef (e : Env) (ip : List (Name × Ty)) : Nat → Nat → Name → Ty → Res
   | 0, _, _, _ => .outOfFuel
   | f + 1, lvl, n, c =>
     match e.find n with
@@ -342,7 +343,7 @@ def checkRef (e : Env) : Nat → Nat → Name → Ty → Res
       match d.kind with
       | .alias origin =>
         match c with
-        | .union ms => allOk (fun m => withNext lvl fun l => checkRef e f l n m) ms.toList
+        | .union ms => allOk (fun m => withNext lvl fun l => checkRef e ip f l n m) ms.toList
         | _ =>
           match origin with
           | none => .notMatch
@@ -351,20 +352,22 @@ def checkRef (e : Env) : Nat → Nat → Name → Ty → Res
               | .union oms => oms.toList.contains c
               | _ => decide (o = c)
             if contains then .ok
+            -- the same (alias, compact) pair is already being unfolded further up: recursive aliases
+            else if (n, c) ∈ ip then .recursion
             else
               match next lvl with
               | none => .recursion
               | some l =>
-                match checkGeneral e f l o c with
+                match checkGeneral e ((n, c) :: ip) f l o c with
                 | .ok => .ok
                 | .unsupported => .unsupported
                 | .outOfFuel => .outOfFuel
-                | err => if c.isRef then checkRefClass e f lvl n c else err
+                | err => if c.isRef then checkRefClass e ip f lvl n c else err
       | .enum => .unsupported
-      | .cls => checkRefClass e f lvl n c
+      | .cls => checkRefClass e ip f lvl n c
 
 /-- `check_ref_class` -/
-def checkRefClass (e : Env) : Nat → Nat → Name → Ty → Res
+def checkRefClass (e : Env) (ip : List (Name × Ty)) : Nat → Nat → Name → Ty → Res
   | 0, _, _, _ => .outOfFuel
   | f + 1, lvl, n, c =>
     match c with
@@ -377,7 +380,7 @@ def checkRefClass (e : Env) : Nat → Nat → Name → Ty → Res
     -- `find_members` of a member-less class is empty: nothing to compare
     | .object _ => withNext lvl fun _ => if e.isAlias n then .unsupported else .ok
     | .prim .table => .ok
-    | .union ms => allOk (fun m => withNext lvl fun l => checkGeneral e f l (.ref n) m) ms.toList
+    | .union ms => allOk (fun m => withNext lvl fun l => checkGeneral e ip f l (.ref n) m) ms.toList
     | .tuple _ => withNext lvl fun _ => if e.isAlias n then .unsupported else .ok
     | _ =>
       match baseTypeName c with
@@ -385,45 +388,45 @@ def checkRefClass (e : Env) : Nat → Nat → Name → Ty → Res
       | none => .notMatch
 
 /-- `check_complex_type_compact` -/
-def checkComplex (e : Env) : Nat → Nat → Ty → Ty → Res
+def checkComplex (e : Env) (ip : List (Name × Ty)) : Nat → Nat → Ty → Ty → Res
   | 0, _, _, _ => .outOfFuel
   | f + 1, lvl, s, c =>
     let first : Res :=
       match s with
-      | .array b => checkArray e f lvl b c
-      | .tuple ts => checkTuple e f lvl ts.toList c
-      | .object fs => checkObject e f lvl fs.toList c
-      | .tgen ps => checkTgen e f lvl ps.toList c
+      | .array b => checkArray e ip f lvl b c
+      | .tuple ts => checkTuple e ip f lvl ts.toList c
+      | .object fs => checkObject e ip f lvl fs.toList c
+      | .tgen ps => checkTgen e ip f lvl ps.toList c
       | .union ms =>
         match c with
         | .union cms =>
-          withNext lvl fun l => allOk (fun cm => withNext l fun l' => checkGeneral e f l' s cm) cms.toList
-        | _ => anyOk (fun m => withNext lvl fun l => checkGeneral e f l m c) ms.toList
+          withNext lvl fun l => allOk (fun cm => withNext l fun l' => checkGeneral e ip f l' s cm) cms.toList
+        | _ => anyOk (fun m => withNext lvl fun l => checkGeneral e ip f l m c) ms.toList
       | _ => .donotCheck
     match first with
     | .donotCheck =>
       match c with
-      | .union cms => allOk (fun cm => withNext lvl fun l => checkComplex e f l s cm) cms.toList
+      | .union cms => allOk (fun cm => withNext lvl fun l => checkComplex e ip f l s cm) cms.toList
       | _ => .notMatch
     | r => r
 
 /-- `check_array_type_compact` -/
-def checkArray (e : Env) : Nat → Nat → Ty → Ty → Res
+def checkArray (e : Env) (ip : List (Name × Ty)) : Nat → Nat → Ty → Ty → Res
   | 0, _, _, _ => .outOfFuel
   | f + 1, lvl, base, c =>
     let sb := if e.arrayIndex then union e base tNil else base
     match c with
-    | .array cb => withNext lvl fun l => checkGeneral e f l sb cb
-    | .tuple ts => allOk (fun t => withNext lvl fun l => checkGeneral e f l sb t) ts.toList
+    | .array cb => withNext lvl fun l => checkGeneral e ip f l sb cb
+    | .tuple ts => allOk (fun t => withNext lvl fun l => checkGeneral e ip f l sb t) ts.toList
     | .object fs =>
       -- `cast_down_array_base`: name keys never form `1..n`; the empty object casts to `unknown`
       match fs with
-      | .nil => withNext lvl fun l => checkGeneral e f l sb tUnknown
+      | .nil => withNext lvl fun l => checkGeneral e ip f l sb tUnknown
       | _ => .notMatch
     | .prim .table => .ok
     | .tgen ps =>
       if ps.toList.length = 2 then
-        allOk (fun p => withNext lvl fun l => checkGeneral e f l sb p) ps.toList
+        allOk (fun p => withNext lvl fun l => checkGeneral e ip f l sb p) ps.toList
       else .donotCheck
     | .prim .any => .ok
     -- `find_index_operations` of a member-less class has no integer index signature
@@ -431,7 +434,7 @@ def checkArray (e : Env) : Nat → Nat → Ty → Ty → Res
     | _ => .donotCheck
 
 /-- `check_tuple_type_compact` (no variadic members in the fragment) -/
-def checkTuple (e : Env) : Nat → Nat → List Ty → Ty → Res
+def checkTuple (e : Env) (ip : List (Name × Ty)) : Nat → Nat → List Ty → Ty → Res
   | 0, _, _, _ => .outOfFuel
   | f + 1, lvl, ts, c =>
     match c with
@@ -442,10 +445,10 @@ def checkTuple (e : Env) : Nat → Nat → List Ty → Ty → Res
           | none => if isOptional p.2 then .ok else .notMatch
           | some ct =>
             withNext l fun l' =>
-              match checkGeneral e f l' p.2 ct with
+              match checkGeneral e ip f l' p.2 ct with
               | .ok => .ok
               | err => err) (ts.zipIdx.map fun (t, i) => (i, t))
-    | .array cb => allOk (fun t => withNext lvl fun l => checkGeneral e f l cb t) ts
+    | .array cb => allOk (fun t => withNext lvl fun l => checkGeneral e ip f l cb t) ts
     | .object _ =>
       withNext lvl fun _ =>
         allOk (fun t => if isNullable t ∨ t = tAny then .ok else .notMatch) ts
@@ -453,7 +456,7 @@ def checkTuple (e : Env) : Nat → Nat → List Ty → Ty → Res
     | _ => .donotCheck
 
 /-- `check_object_type_compact` -/
-def checkObject (e : Env) : Nat → Nat → List (Name × Ty) → Ty → Res
+def checkObject (e : Env) (ip : List (Name × Ty)) : Nat → Nat → List (Name × Ty) → Ty → Res
   | 0, _, _, _ => .outOfFuel
   | f + 1, lvl, fs, c =>
     match c with
@@ -462,7 +465,7 @@ def checkObject (e : Env) : Nat → Nat → List (Name × Ty) → Ty → Res
         allOk (fun (kt : Name × Ty) =>
           match cfs.toList.find? (fun x => x.1 = kt.1) with
           | none => if isNullable kt.2 ∨ kt.2 = tAny then .ok else .notMatch
-          | some (_, ct) => withNext l fun l' => checkGeneral e f l' kt.2 ct) fs
+          | some (_, ct) => withNext l fun l' => checkGeneral e ip f l' kt.2 ct) fs
     | .ref n =>
       withNext lvl fun _ =>
         if e.isAlias n then .unsupported
@@ -476,7 +479,7 @@ def checkObject (e : Env) : Nat → Nat → List (Name × Ty) → Ty → Res
     | _ => .donotCheck
 
 /-- `check_table_generic_type_compact` -/
-def checkTgen (e : Env) : Nat → Nat → List Ty → Ty → Res
+def checkTgen (e : Env) (ip : List (Name × Ty)) : Nat → Nat → List Ty → Ty → Res
   | 0, _, _, _ => .outOfFuel
   | f + 1, lvl, ps, c =>
     match c with
@@ -484,24 +487,24 @@ def checkTgen (e : Env) : Nat → Nat → List Ty → Ty → Res
     | .tgen cps =>
       match ps, cps.toList with
       | [k, v], [ck, cv] =>
-        (withNext lvl fun l => checkGeneral e f l k ck).andThen fun _ =>
-          withNext lvl fun l => checkGeneral e f l v cv
+        (withNext lvl fun l => checkGeneral e ip f l k ck).andThen fun _ =>
+          withNext lvl fun l => checkGeneral e ip f l v cv
       | _, _ => .notMatch
     | .array cb =>
       match ps with
       | [k, v] =>
-        if k = tAny ∨ k.isInteger then withNext lvl fun l => checkGeneral e f l v cb else .notMatch
+        if k = tAny ∨ k.isInteger then withNext lvl fun l => checkGeneral e ip f l v cb else .notMatch
       | _ => .notMatch
     | .tuple cts =>
       match ps with
       | [k, v] =>
-        if k = tAny then allOk (fun t => withNext lvl fun l => checkGeneral e f l v t) cts.toList
+        if k = tAny then allOk (fun t => withNext lvl fun l => checkGeneral e ip f l v t) cts.toList
         else .ok
       | _ => .notMatch
     | .prim .userdata => .ok
     -- `get_members(LuaMemberOwner::Type(id))` is `None` for member-less classes and for aliases
     | .ref _ => withNext lvl fun _ => if ps.length ≠ 2 then .notMatch else .ok
-    | .union ms => allOk (fun m => checkTgen e f lvl ps m) ms.toList
+    | .union ms => allOk (fun m => checkTgen e ip f lvl ps m) ms.toList
     | _ => .notMatch
 end
 
@@ -509,6 +512,6 @@ end
 def checkFuel : Nat := 1200
 
 /-- `check_type_compact(db, source, compact)` -/
-def checkTop (e : Env) (s c : Ty) : Res := checkGeneral e checkFuel 0 s c
+def checkTop (e : Env) (s c : Ty) : Res := checkGeneral e [] checkFuel 0 s c
 
 end TyM
